@@ -2627,6 +2627,11 @@ package decimal128
 //@ callarg digits.fmtE#1: arg_prec == ite(digs.ndig != 0, digs.ndig - 1, 0) && arg_width == 0 && !arg_forceDP && !arg_printSign && !arg_padSign && !arg_padExp && !arg_padRight && !arg_padZero && arg_e == 101
 //@ callarg digits.fmtF#1: arg_prec == ite(digs.exp < 0, 0 - digs.exp, 0) && arg_width == 0 && !arg_forceDP && !arg_printSign && !arg_padSign && !arg_padRight && !arg_padZero
 //@ ensures !special(d) ==> jst(out, len(out)) == 2 || jst(out, len(out)) == 3 || jst(out, len(out)) == 5 || jst(out, len(out)) == 8
+//@ define NS = ite(sign(d), 1, 0)
+//@ define PA = pst(from(out, NS), len(out) - NS)
+//@ ensures !special(d) && sign(d) ==> out[0] == 45
+//@ ensures !special(d) ==> len(out) >= 1 + NS && len(out) <= 20000 && 48 <= out[NS] && out[NS] <= 57
+//@ ensures !special(d) ==> PA == 1 || PA == 5 || PA == 9
 //@ define VS = ite(sign(d), 1, 0)
 //@ define VB = from(out, VS)
 //@ define VL = (len(out) - VS)
@@ -2655,6 +2660,7 @@ package decimal128
 //@ define NS = ite(sign(d), 1, 0)
 //@ define PA = pst(from(s, NS), len(s) - NS)
 //@ ensures !special(d) && sign(d) ==> s[0] == 45
+//@ ensures !special(d) ==> len(s) >= 1 + NS && len(s) <= 20000 && 48 <= s[NS] && s[NS] <= 57
 //@ ensures !special(d) ==> PA == 1 || PA == 5 || PA == 9
 //@ define VS = ite(sign(d), 1, 0)
 //@ define VB = from(s, VS)
@@ -2682,6 +2688,7 @@ package decimal128
 //@ define NS = ite(sign(d), 1, 0)
 //@ define PA = pst(from(out, NS), len(out) - NS)
 //@ ensures !special(d) && sign(d) ==> out[0] == 45
+//@ ensures !special(d) ==> len(out) >= 1 + NS && len(out) <= 20000 && 48 <= out[NS] && out[NS] <= 57
 //@ ensures !special(d) ==> PA == 1 || PA == 5 || PA == 9
 //@ define VS = ite(sign(d), 1, 0)
 //@ define VB = from(out, VS)
@@ -2855,6 +2862,7 @@ package decimal128
 //@ assert before "buf = d.pad(buf, start, width, printSign, padSign, padRight, padZero)": JSE ==> pst(PB, LEN - MB) == 9
 //@ ensures JSE && width == 0 ==> pst(from(out, SL), len(out) - SL) == 9
 //@ ensures N0 == 0 && width == 0 && d.neg ==> out[0] == 45
+//@ ensures N0 == 0 && width == 0 && !printSign && !padSign ==> 48 <= out[SL] && out[SL] <= 57
 //@ define NN = d.ndig
 //@ define DOT = (prec > 0 && NN >= 2 && prec == NN - 1)
 //@ define SPE = (NN >= 1 && prec == NN - 1)
@@ -3211,6 +3219,13 @@ package decimal128
 //@ hyp forall k in n..m - 1: a[k] >= 48 && a[k] <= 57
 //@ holds (jst(a, n) == 3 ==> jst(a, m) == 3) && (jst(a, n) == 5 ==> jst(a, m) == 5) && (jst(a, n) == 8 ==> jst(a, m) == 8) && (m > n ==> (jst(a, n) == 4 ==> jst(a, m) == 5) && (jst(a, n) == 6 || jst(a, n) == 7 ==> jst(a, m) == 8))
 //@ props C13
+// a text the RFC 8259 automaton has not rejected contains no '_' (from any starting offset s)
+//@ lemma jst_no_usc
+//@ forall a bytes, s int, n int
+//@ induct n from s
+//@ hyp 0 <= s && s <= n
+//@ holds jst(a, n) != 9 ==> usc(from(a, s), n - s) == 0
+//@ props C13
 // the automaton reads only the bytes
 //@ lemma jst_cong
 //@ forall a bytes, b bytes, n int
@@ -3312,6 +3327,7 @@ package decimal128
 //@ assert before "buf = d.pad(buf, start, width, printSign, padSign, padRight, padZero)": JS && P0 > 0 ==> pst(PB, LEN - MB) == 5
 //@ ensures JS && width == 0 && !forceDP ==> pst(from(out, SL), len(out) - SL) == ite(P0 > 0, 5, 1)
 //@ ensures N0 == 0 && width == 0 && d.neg ==> out[0] == 45
+//@ ensures N0 == 0 && width == 0 && !printSign && !padSign ==> 48 <= out[SL] && out[SL] <= 57
 //@ define NN = d.ndig
 //@ define CASE1 = (NN >= 1 && DP >= NN)
 //@ define CASE2 = (NN >= 1 && DP > 0 && DP < NN && P0 > 0)
@@ -3396,3 +3412,125 @@ package decimal128
 //@ loop 2: invariant i >= 0
 //@ loop 2: decreases p - i
 //@ props C07 C20
+
+// ---------------------------------------------------------------------------
+// clients_verif.go: round trips as theorems about compositions (C06, C13)
+// ---------------------------------------------------------------------------
+
+// Parse(d.String()) denotes the value of d with d's sign (C06): String's postcondition is Parse's
+// precondition for V = the value of d; Parse's postcondition is RndOK for that V; a RndOK result for a
+// representable value is that value (rnd_exact_int / rnd_exact_frac).
+//@ func verifStringParse
+//@ returns (v, err, eq)
+//@ logical V real
+//@ requires DefaultRoundingMode <= 5
+//@ requires !special(d) ==> V >= 0 && rs(V, bexp(d)) == coef(d)
+//@ call Decimal.String#1: V = V
+//@ call Parse#1: V = V
+//@ ensures isnan(d) ==> tag(err) == 0 && isnan(v)
+//@ ensures isinf(d) ==> tag(err) == 0 && isinf(v) && sign(v) == sign(d)
+//@ ensures !special(d) ==> tag(err) == 0 && !special(v) && sign(v) == sign(d)
+//@ ensures !special(d) ==> rs(V, bexp(v)) == coef(v)
+//@ uses order=file
+//@ define E = bexp(d)
+//@ define C = coef(d)
+//@ define XE = bexp(v)
+//@ define XC = coef(v)
+//@ define RM = DefaultRoundingMode
+//@ define FIN = (!special(d) && !special(v) && C != 0)
+//@ define LOW = (FIN && XE <= E)
+//@ define HIGH = (FIN && XE > E)
+//@ apply before "return v, err" when {LOW}: rs_pw10n(V, XE, E - XE)
+//@ apply before "return v, err" when {LOW}: pw10n_pos(E - XE)
+//@ assert before "return v, err": LOW ==> rs(V, XE) == real(C * pw10(E - XE))
+//@ apply before "return v, err" when {LOW}: rnd_exact_int(RM, sign(d), C * pw10(E - XE), XC, XE)
+//@ assert before "return v, err": LOW ==> rs(V, XE) == XC
+//@ apply before "return v, err" when {HIGH}: rs_pw10n(V, E, XE - E)
+//@ apply before "return v, err" when {HIGH}: pw10n_step1(XE - E)
+//@ apply before "return v, err" when {HIGH}: pw10n_pos(XE - E - 1)
+//@ apply before "return v, err" when {HIGH}: scale_le(rs(V, XE), pw10(XE - E), C)
+//@ apply before "return v, err" when {HIGH}: rnd_exact_frac(RM, sign(d), rs(V, XE), C, XC, XE)
+//@ assert before "return v, err": HIGH ==> rs(V, XE) == XC
+//@ assert before "return v, err": !special(d) && C == 0 ==> !special(v) && XC == 0 && rs(V, XE) == 0
+//@ assert before "return v, err": !special(d) ==> !special(v) && rs(V, XE) == XC
+//@ apply before "return v, err" when {FIN}: cmpmag_is_real_order(V, V, XC, XE, C, E)
+//@ ensures !isnan(d) ==> eq
+//@ ensures isnan(d) ==> !eq
+//@ props C06
+
+// UnmarshalText(MarshalText(d)) is Equal to d with d's sign (C06).
+//@ func verifTextRoundTrip
+//@ returns (v, err1, err2, eq)
+//@ logical V real
+//@ requires DefaultRoundingMode <= 5
+//@ requires !special(d) ==> V >= 0 && rs(V, bexp(d)) == coef(d)
+//@ call Decimal.MarshalText#1: V = V
+//@ call Decimal.UnmarshalText#1: V = V
+//@ ensures isnan(d) ==> tag(err1) == 0 && tag(err2) == 0 && isnan(v)
+//@ ensures isinf(d) ==> tag(err1) == 0 && tag(err2) == 0 && isinf(v) && sign(v) == sign(d)
+//@ ensures !special(d) ==> tag(err1) == 0 && tag(err2) == 0 && !special(v) && sign(v) == sign(d)
+//@ ensures !special(d) ==> rs(V, bexp(v)) == coef(v)
+//@ uses order=file
+//@ define E = bexp(d)
+//@ define C = coef(d)
+//@ define XE = bexp(v)
+//@ define XC = coef(v)
+//@ define RM = DefaultRoundingMode
+//@ define FIN = (!special(d) && !special(v) && C != 0)
+//@ define LOW = (FIN && XE <= E)
+//@ define HIGH = (FIN && XE > E)
+//@ apply before "return v, err1, err2, eq" when {LOW}: rs_pw10n(V, XE, E - XE)
+//@ apply before "return v, err1, err2, eq" when {LOW}: pw10n_pos(E - XE)
+//@ assert before "return v, err1, err2, eq": LOW ==> rs(V, XE) == real(C * pw10(E - XE))
+//@ apply before "return v, err1, err2, eq" when {LOW}: rnd_exact_int(RM, sign(d), C * pw10(E - XE), XC, XE)
+//@ assert before "return v, err1, err2, eq": LOW ==> rs(V, XE) == XC
+//@ apply before "return v, err1, err2, eq" when {HIGH}: rs_pw10n(V, E, XE - E)
+//@ apply before "return v, err1, err2, eq" when {HIGH}: pw10n_step1(XE - E)
+//@ apply before "return v, err1, err2, eq" when {HIGH}: pw10n_pos(XE - E - 1)
+//@ apply before "return v, err1, err2, eq" when {HIGH}: scale_le(rs(V, XE), pw10(XE - E), C)
+//@ apply before "return v, err1, err2, eq" when {HIGH}: rnd_exact_frac(RM, sign(d), rs(V, XE), C, XC, XE)
+//@ assert before "return v, err1, err2, eq": HIGH ==> rs(V, XE) == XC
+//@ assert before "return v, err1, err2, eq": !special(d) && C == 0 ==> !special(v) && XC == 0 && rs(V, XE) == 0
+//@ assert before "return v, err1, err2, eq": !special(d) ==> !special(v) && rs(V, XE) == XC
+//@ apply before "return v, err1, err2, eq" when {FIN}: cmpmag_is_real_order(V, V, XC, XE, C, E)
+//@ ensures !isnan(d) ==> eq
+//@ ensures isnan(d) ==> !eq
+//@ props C06
+
+// UnmarshalJSON(MarshalJSON(d)) is Equal to d with d's sign for every finite d (C13).
+//@ func verifJSONRoundTrip
+//@ returns (v, err1, err2, eq)
+//@ logical V real
+//@ requires DefaultRoundingMode <= 5
+//@ requires !special(d) ==> V >= 0 && rs(V, bexp(d)) == coef(d)
+//@ call Decimal.MarshalJSON#1: V = V
+//@ call Decimal.UnmarshalJSON#1: V = V
+//@ ensures special(d) ==> tag(err1) == typetag("*encoding/json.UnsupportedValueError")
+//@ ensures !special(d) ==> tag(err1) == 0 && tag(err2) == 0 && !special(v) && sign(v) == sign(d)
+//@ ensures !special(d) ==> rs(V, bexp(v)) == coef(v)
+//@ uses order=file
+//@ apply before "err2 := v.UnmarshalJSON(b)" when {!special(d)}: jst_no_usc(b, ite(sign(d), 1, 0), len(b))
+//@ define E = bexp(d)
+//@ define C = coef(d)
+//@ define XE = bexp(v)
+//@ define XC = coef(v)
+//@ define RM = DefaultRoundingMode
+//@ define FIN = (!special(d) && !special(v) && C != 0)
+//@ define LOW = (FIN && XE <= E)
+//@ define HIGH = (FIN && XE > E)
+//@ apply before "return v, err1, err2, eq" when {LOW}: rs_pw10n(V, XE, E - XE)
+//@ apply before "return v, err1, err2, eq" when {LOW}: pw10n_pos(E - XE)
+//@ assert before "return v, err1, err2, eq": LOW ==> rs(V, XE) == real(C * pw10(E - XE))
+//@ apply before "return v, err1, err2, eq" when {LOW}: rnd_exact_int(RM, sign(d), C * pw10(E - XE), XC, XE)
+//@ assert before "return v, err1, err2, eq": LOW ==> rs(V, XE) == XC
+//@ apply before "return v, err1, err2, eq" when {HIGH}: rs_pw10n(V, E, XE - E)
+//@ apply before "return v, err1, err2, eq" when {HIGH}: pw10n_step1(XE - E)
+//@ apply before "return v, err1, err2, eq" when {HIGH}: pw10n_pos(XE - E - 1)
+//@ apply before "return v, err1, err2, eq" when {HIGH}: scale_le(rs(V, XE), pw10(XE - E), C)
+//@ apply before "return v, err1, err2, eq" when {HIGH}: rnd_exact_frac(RM, sign(d), rs(V, XE), C, XC, XE)
+//@ assert before "return v, err1, err2, eq": HIGH ==> rs(V, XE) == XC
+//@ assert before "return v, err1, err2, eq": !special(d) && C == 0 ==> !special(v) && XC == 0 && rs(V, XE) == 0
+//@ assert before "return v, err1, err2, eq": !special(d) ==> !special(v) && rs(V, XE) == XC
+//@ apply before "return v, err1, err2, eq" when {FIN}: cmpmag_is_real_order(V, V, XC, XE, C, E)
+//@ ensures !special(d) ==> eq
+//@ props C13
